@@ -321,7 +321,7 @@ def rule_r4(ctx) -> List[R.Inst]:
 def rule_r5(ctx) -> List[R.Inst]:
     M = ctx.M
     q = TL + ".append"
-    fn = M.fn(q)
+    fn = M.nfn(q)
     file, line = fn_loc(M, q)
     calls = [n for n in walk_no_nested(fn.node) if isinstance(n, ast.Call) and unparse(n.func).endswith("concat")]
     if len(calls) != 1 or not calls[0].args or not isinstance(calls[0].args[0], (ast.List, ast.Tuple)):
@@ -329,7 +329,14 @@ def rule_r5(ctx) -> List[R.Inst]:
     c = calls[0]
     parts = [unparse(e) for e in c.args[0].elts]
     ign = _kw(c, "ignore_index")
-    order_ok = len(parts) == 2 and parts[0] in ("self.df", "self._df") and parts[1] == "val"
+    # the appended rows: the parameter itself, or a local every definition of which is derived from the parameter
+    pnames = [a.arg for a in fn.node.args.args if a.arg != "self"]
+    vparam = pnames[0] if pnames else "val"
+    rowvar = parts[1] if len(parts) == 2 else None
+    row_defs = [n for n in walk_no_nested(fn.node) if isinstance(n, ast.Assign) and isinstance(n.targets[0], ast.Name) and n.targets[0].id == rowvar]
+    from_param = rowvar == vparam or (bool(row_defs) and rowvar is not None and rowvar.isidentifier() and all(
+        any(isinstance(x, ast.Name) and x.id == vparam for x in ast.walk(d_.value)) for d_ in row_defs))
+    order_ok = len(parts) == 2 and parts[0] in ("self.df", "self._df") and from_param
     ign_ok = isinstance(ign, ast.Constant) and ign.value is True
     sort_ok = any(isinstance(n, ast.IfExp) and unparse(n.test) == "sort" and "sorted" in unparse(n.body) and
                   "sorted" not in unparse(n.orelse) for n in ast.walk(fn.node)) or any(
@@ -357,7 +364,7 @@ def rule_r5(ctx) -> List[R.Inst]:
     # integer indexing downstream break) unless the row is re-typed first
     degrade = []
     for n in walk_no_nested(fn.node):
-        if isinstance(n, ast.Assign) and isinstance(n.targets[0], ast.Name) and n.targets[0].id == "val":
+        if isinstance(n, ast.Assign) and isinstance(n.targets[0], ast.Name) and n.targets[0].id in (vparam, rowvar):
             v = n.value
             has_T = any(isinstance(x, ast.Attribute) and x.attr == "T" for x in ast.walk(v))
             retyped = any(isinstance(x, ast.Call) and isinstance(x.func, ast.Attribute) and x.func.attr in ("infer_objects", "astype", "convert_dtypes")
@@ -415,7 +422,7 @@ def rule_r6(ctx) -> List[R.Inst]:
     insts = []
     for (c, name), (flagnames, expect) in SPEC6.items():
         q = M.method(c, name)
-        fn = M.fn(q)
+        fn = M.nfn(q, subst=True)
         file, line = fn_loc(M, q)
         ps = params_of(fn.node)
         bound = ps[1]
@@ -614,7 +621,7 @@ def rule_r8(ctx) -> List[R.Inst]:
                             construct="TimedList.__init__ empty branch"))
     # from_dict: rejects unknown columns, adds every missing declared column
     q = TL + ".from_dict"
-    fn = M.fn(q)
+    fn = M.nfn(q, subst=True)
     file, line = fn_loc(M, q)
     # ... and keeps the rows it is given: one row per record, in order
     ROWOPS = ("drop_duplicates", "dropna", "sort_values", "sort_index", "sample", "head", "tail", "query", "nlargest", "nsmallest",
